@@ -40,6 +40,37 @@ CLAIMS = {
             "with a fresh instance.",
             "trusts rustc's MIR",
             "DESIGN.md §5 C10"),
+    "C12": ("provenance (def-use) of report name/source arguments; must-pass-through set_source; chunk-name provenance; reviewed panic sites of the report printer",
+            "Static decision that every rendering report takes (name, source) from one report_target call on the executing chunk, that "
+            "report_target returns both components of the same template (tera.templates[chunk.name] or the VM's own), that every chunk is named "
+            "after its defining template, that registration-time reports pair name/source of one template, and that no syntax error leaves "
+            "Template::new without its source. Does not decide line/column consistency or span coverage.",
+            "trusts rustc's MIR",
+            "DESIGN.md §5 C12"),
+    "C14": ("provenance of str slicing offsets (char_indices / grapheme_indices only); dominance guards on index arithmetic, narrowing casts and the zero-step test",
+            "Static decision, per feature configuration, that no str is byte-sliced except at char-boundary offsets, that the raw integer sites "
+            "of index resolution keep their guards, that narrowing casts are consumed only under the range test, and that a zero step errors "
+            "before any loop. Does not decide equality with Python's clamping.",
+            "trusts rustc's MIR; std/unicode-segmentation index iterators",
+            "DESIGN.md §5 C14"),
+    "C16": ("callee identity of the order consumers (sort_by comparator, BTreeSet) + the C15.ORD pair walk; reviewed panic-site table for collection filters",
+            "Static decision that sort/unique order through Ord for Value (whose totality skeleton is re-checked), that sort's non-empty Ok returns "
+            "lie behind ensure_comparable, that first/last/nth use Option-returning accessors, and that the panic-capable sites of the filters are "
+            "exactly the reviewed set. Does not decide permutation/stability/partition laws.",
+            "trusts rustc's MIR; std sort stability",
+            "DESIGN.md §5 C16"),
+    "C17": ("reviewed panic-site table (multiset inclusion) for built-ins and argument extraction; dominance guards on std preconditions; iterable-kind table agreement",
+            "Static decision that the places where a built-in could panic are exactly the reviewed ones (a new unwrap/index/raw signed arithmetic/"
+            "panicking std call is reported), that from_str_radix, repeat and range's allocation keep their guards, and that the iterable test "
+            "agrees with the VM's iterator factory. Does not decide the filters' documented contracts.",
+            "trusts rustc's MIR; the reasons in tables/panic_sites.json are reviewed by reading, not proved",
+            "DESIGN.md §4.2, §5 C17"),
+    "C19": ("cast classification; three-way variant table agreement (serializer / deserializer / Serialize for Value) by variant walk; per-method Ok/Err inventory of the key serializer",
+            "Static decision that the serde bridge uses only lossless casts, that serializer, deserializer and re-serializer agree on the class of "
+            "every ValueInner variant and every serializer method, that unsupported map-key kinds are refused with a constant Err, and that map "
+            "printing sorts. Does not decide round-trip equality over the data model.",
+            "trusts rustc's MIR; serde's visitor narrowing contract",
+            "DESIGN.md §5 C19"),
     "C13": ("absence analysis of raw/wrapping integer operations over the arithmetic call tree; callee-identity table; cast classification with dominance guards",
             "Static decision that integer arithmetic on the operator paths is exclusively checked_* with None => Err, that each operator uses the "
             "callee that makes the property's formulas hold (euclidean rem/div, checked_pow with u32::try_from), that `/` is a float division "
